@@ -60,6 +60,13 @@ def keysMatch (lk rk : List Nat) (l r : Row) : Bool :=
 def mergeRow (width : Nat) (own : List Nat) (l r : Row) : Row :=
   (List.range width).map fun i => if own.contains i then Row.at r i else Row.at l i
 
+/-- what a merge join emits for one key group `g` of its right input: the cross product with the
+matching left rows, left-row-major; an unmatched group padded (right outer) or dropped (inner) -/
+def mjBlock (pad : Bool) (mg : Row → Row → Row) (lk rk : List Nat) (L : List Row) (g : List Row) : List Row :=
+  match L.filter (fun l => keysMatch lk rk l (g.headD [])) with
+  | [] => if pad then g else []
+  | ls => ls.flatMap fun l => g.map (mg l)
+
 /-- merge_join.rs (inputs sorted by the join keys), `mg` = overlay of a matched pair -/
 def opMergeJoin (t : JT) (mg : Row → Row → Row) (lk rk : List Nat) (L R : List Row) : List Row :=
   match t with
@@ -68,11 +75,8 @@ def opMergeJoin (t : JT) (mg : Row → Row → Row) (lk rk : List Nat) (L R : Li
       match R.filter (keysMatch lk rk l) with
       | [] => [l]
       | ms => ms.map (mg l)
-  | .inner | .rightOuter =>
-    (runs (sameKeys rk) R).flatMap fun g =>
-      match L.filter (fun l => keysMatch lk rk l (g.headD [])) with
-      | [] => if t = .rightOuter then g else []
-      | ls => ls.flatMap fun l => g.map (mg l)
+  | .inner => (runs (sameKeys rk) R).flatMap (mjBlock false mg lk rk L)
+  | .rightOuter => (runs (sameKeys rk) R).flatMap (mjBlock true mg lk rk L)
   | _ =>
     -- full outer: key groups of both sides interleaved; no order is claimed for it, the
     -- interleaving is not modelled (matched / left-padded rows left-major, then right-padded)
